@@ -98,8 +98,8 @@ FamStream == [Base EXCEPT
   !.streams = <<"s1", "s2", "s3">>, !.peers = {"p1", "p2"}, !.protos = {"a"}, !.svcs = {"x"},
   !.lim = ("sys" :> LR(INF, 9, 9, 2, 9, 9, 9, 9)) @@ ("trans" :> LR(INF, 9, 9, 1, 9, 9, 9, 9)) @@
           ("peer:p1" :> LR(INF, 1, 9, 2, 9, 9, 9, 9)) @@ ("peer:p2" :> LR(INF, 9, 9, 2, 9, 9, 9, 9)) @@
-          ("proto:a" :> LR(INF, 9, 1, 2, 9, 9, 9, 9)) @@ ("proto:a.peer" :> LR(INF, 9, 9, 1, 9, 9, 9, 9)) @@
-          ("svc:x" :> LR(INF, 9, 9, 2, 9, 9, 9, 9)) @@ ("svc:x.peer" :> LR(INF, 9, 9, 1, 9, 9, 9, 9)) @@
+          ("proto:a" :> LR(INF, 9, 1, 2, 9, 9, 9, 9)) @@ ("proto:a.peer" :> LR(INF, 1, 9, 2, 9, 9, 9, 9)) @@
+          ("svc:x" :> LR(INF, 1, 9, 2, 9, 9, 9, 9)) @@ ("svc:x.peer" :> LR(INF, 9, 9, 1, 9, 9, 9, 9)) @@
           ("conn" :> Open) @@ ("stream" :> LR(INF, 1, 1, 1, 9, 9, 9, 9)),
   !.dirs = {"in", "out"},
   !.kinds = {"openstream", "setprotocol", "setservice", "done", "gc"}]
@@ -148,11 +148,13 @@ FamCStream == [FamStream EXCEPT
 FamConnQ == [FamConn EXCEPT !.conns = <<"c1", "c2">>]
 FamStreamQ == [FamStream EXCEPT !.dirs = {"in"}]
 FamSpanQ == [FamSpan EXCEPT !.spans = <<"sp1", "sp2">>]
-FamSubnetQ == [FamSubnet EXCEPT !.eps = {"a1", "a2", "v6", "n0"}]
-FamCMemQ == [FamCMem EXCEPT !.sizes = {1}]
+FamSubnetQ == [FamSubnet EXCEPT !.eps = {"a1", "a2", "v6", "n0"}, !.kinds = {"openconn", "done"}]
+FamAllowQ == [FamAllow EXCEPT !.dirs = {"in"}]
+FamCMemQ == [FamCMem EXCEPT !.sizes = {1}, !.streams = <<>>, !.kinds = {"setpeer", "reserve", "release", "done"},
+                            !.preload = <<OC("c1", "in", FALSE, "n0"), BS("sp1", "c1")>>]
 
 Cfg == CASE Fam = "connq" -> FamConnQ [] Fam = "streamq" -> FamStreamQ [] Fam = "spanq" -> FamSpanQ
-         [] Fam = "subnetq" -> FamSubnetQ [] Fam = "cmemq" -> FamCMemQ
+         [] Fam = "subnetq" -> FamSubnetQ [] Fam = "cmemq" -> FamCMemQ [] Fam = "allowq" -> FamAllowQ
          [] Fam = "mem" -> FamMem [] Fam = "memp" -> FamMemP [] Fam = "span" -> FamSpan
          [] Fam = "conn" -> FamConn [] Fam = "subnet" -> FamSubnet [] Fam = "allow" -> FamAllow [] Fam = "connmem" -> FamConnMem
          [] Fam = "stream" -> FamStream [] Fam = "streammem" -> FamStreamMem
